@@ -6,7 +6,7 @@ import copy
 
 from hypothesis import strategies as st
 
-from vfw import scen_gen, scenario
+from vfw import gen, scen_gen, scenario
 from vfw.core import Violation
 from vfw.model import stencil as M
 
@@ -91,8 +91,63 @@ def strategy_impl(draw, tier):
     return {"scenario": sc, "call": idx, "edit": edit, "pick": draw(st.integers(0, 7))}
 
 
+@st.composite
+def vector_wrapper_case(draw):
+    """The two-component wrappers move C-grid components to the cell centres; a component that already sits on the centre
+    of its own axis is a same-position shift."""
+    n = draw(st.integers(2, 4))
+    at_center = draw(st.sampled_from([["X"], ["Y"], ["X", "Y"]]))
+    return {"kind": "vector-wrapper", "n": n, "wrapper": draw(st.sampled_from(["interp_2d_vector", "diff_2d_vector"])),
+            "at_center": at_center, "order": draw(st.sampled_from([["X", "Y"], ["Y", "X"]])),
+            "kwargs": draw(st.sampled_from([{}, {"boundary": "extend"}, {"boundary": "fill", "fill_value": 1.0}, {"to": "center"}])),
+            "faces": draw(st.booleans()), "u": draw(gen.data_values([2, n, n], elements=st.integers(-9, 9).map(float))),
+            "v": draw(gen.data_values([2, n, n], elements=st.integers(-9, 9).map(float)))}
+
+
+def check_vector_wrapper(case, ctx):
+    import warnings
+
+    import numpy as np
+    import xarray as xr
+    from xgcm import Grid
+
+    n = case["n"]
+    coords = {"xc": ("xc", np.arange(n) + 0.5), "xl": ("xl", np.arange(n) * 1.0), "yc": ("yc", np.arange(n) + 0.5),
+              "yl": ("yl", np.arange(n) * 1.0), "face": ("face", [0, 1])}
+    ds = xr.Dataset(coords=coords)
+    fc = {"face": {0: {"X": (None, (1, "X", False))}, 1: {"X": ((0, "X", False), None)}}} if case["faces"] else None
+    grid = Grid(ds, coords={"X": {"center": "xc", "left": "xl"}, "Y": {"center": "yc", "left": "yl"}}, periodic=False,
+                autoparse_metadata=False, face_connections=fc, boundary="extend")
+    wrapper = getattr(grid, case["wrapper"])
+
+    def comp(axis, centred, vals):
+        dims = {"X": ["face", "yc", "xc" if centred else "xl"], "Y": ["face", "yc" if centred else "yl", "xc"]}[axis]
+        return xr.DataArray(np.asarray(vals, dtype=np.float64), dims=dims)
+
+    def call(centred):
+        vec = {a: comp(a, a in centred, case["u"] if a == "X" else case["v"]) for a in case["order"]}
+        with warnings.catch_warnings():
+            warnings.simplefilter("ignore")
+            try:
+                return ("ok", wrapper(vec, **dict(case["kwargs"])))
+            except Exception as e:  # noqa: BLE001
+                return ("raise", type(e).__name__)
+
+    base = call([])
+    classes = ["edit:vector-component-at-center", f"fn:{case['wrapper']}", "family:vector-wrapper"]
+    if base[0] != "ok":
+        ctx.note("unedited_call_does_not_return")
+        return {"nontrivial": False, "classes": ["unedited-refused"] + classes}
+    got = call(case["at_center"])
+    if got[0] == "ok":
+        raise Violation("an ill-posed request was answered instead of refused", edit="vector component already at the centre of its own axis",
+                        fn=case["wrapper"], at_center=case["at_center"], listed=case["order"], kwargs=case["kwargs"],
+                        answer={k: list(v.dims) for k, v in got[1].items()} if isinstance(got[1], dict) else str(type(got[1])))
+    return {"nontrivial": True, "classes": classes + ["raised:" + got[1]]}
+
+
 def strategy(tier):
-    return strategy_impl(tier)
+    return st.integers(0, 9).flatmap(lambda k: vector_wrapper_case() if k == 0 else strategy_impl(tier))
 
 
 def pick(seq, k):
@@ -306,6 +361,8 @@ def materialise(sc):
 
 
 def check(case, ctx):
+    if case.get("kind") == "vector-wrapper":
+        return check_vector_wrapper(case, ctx)
     prep = prepare(case)
     edit = case["edit"]
     fn = case["scenario"]["calls"][case["call"]]["fn"]
